@@ -77,12 +77,14 @@ def validate_abstxn(trace_path, workers, keys, atomic=True, exact=True, timeout=
         gen, dist = parse_stats(out)
         res = dict(rc=rc, wall=wall, states=gen, distinct=dist, out=out)
         if hw:
-            res["highwater"], res["length"] = int(hw[-1][0]), int(hw[-1][1])
-            res["accepted"] = (rc == 0 and res["highwater"] == res["length"] + 1)
+            best = max(hw, key=lambda x: int(x[0]))
+            res["highwater"], res["length"] = int(best[0]), int(best[1])
+            res["accepted"] = (res["highwater"] == res["length"] + 1)
         else:
             res["highwater"] = res["length"] = -1
             res["accepted"] = False
-        res["machinery_error"] = (not hw) or (rc not in (0, 13))
+        bad = [ln for ln in out.splitlines() if ln.startswith("Error:") and "Postcondition Accepted" not in ln]
+        res["machinery_error"] = (not hw) or bool(bad) or rc == 124
         return res
     finally:
         if own:
